@@ -183,7 +183,7 @@ def compare(ref, got):
         if got[0] == "ok" and got[1] == ref[1]:
             return None
         return ("wrong-binding-selected" if got[0] == "ok" else "unexpected-exception", f"expected {ref[1]!r} got {got[1]!r}" if got[0] == "ok" else f"{got[1]}: {got[2]}")
-    if got[0] == "exc" and got[1] == ref[1]:
+    if got[0] == "exc" and (got[1] == ref[1] or got[1] in getattr(ref[-1], "error_kinds", ())):
         return None
     return ("missing-or-wrong-error", f"expected {ref[1]}, got {got[:2]!r}")
 
